@@ -201,6 +201,14 @@ func (g *gctx) genFile(f *File) {
 			// back from an optional (or container) field of the struct itself
 			if g.o.Recursive && st.Kind != DUnion && g.chance(1, 5, "recgroup") {
 				last := &Type{K: TRef, Ref: &Ref{File: f.Path, Name: st.Name}}
+				// the chain may run through a container of the struct
+				overContainer := ""
+				switch g.intn(0, 3, "chainbase") {
+				case 1:
+					last, overContainer = &Type{K: TList, Elem: last}, "list"
+				case 2:
+					last, overContainer = &Type{K: TMap, Key: &Type{K: TString}, Val: last}, "map"
+				}
 				for k, n := 0, g.intn(1, 3, "chainlen"); k < n; k++ {
 					td := &Def{Kind: DTypedef, Name: g.newTypeName(), Target: last}
 					add(td)
@@ -219,7 +227,16 @@ func (g *gctx) genFile(f *File) {
 				case 2:
 					ft = &Type{K: TMap, Key: &Type{K: TString}, Val: last}
 				}
-				st.Fields = append(st.Fields, &Field{ID: g.genFieldID(usedIDs), Name: g.fieldName(usedNames), Type: ft, Req: "optional"})
+				back := &Field{ID: g.genFieldID(usedIDs), Name: g.fieldName(usedNames), Type: ft, Req: "optional"}
+				// an (empty) default on the back reference: casting it needs the typedef chain's root
+				if g.o.Defaults && ft == last && overContainer != "" && g.chance(1, 2, "backdefault") {
+					if overContainer == "list" {
+						back.Default = &Const{K: "list"}
+					} else {
+						back.Default = &Const{K: "map"}
+					}
+				}
+				st.Fields = append(st.Fields, back)
 			}
 		}
 		if g.o.Consts {
